@@ -525,6 +525,20 @@ func (ex *Exec) bytesToStr(st *State, v Val) string {
 }
 
 func (ex *Exec) strToBytes(st *State, v Val, to types.Type) Val {
+	if lit, ok := ex.strLits[v.L[0]]; ok || v.L[0] == "str_empty" {
+		// a string literal: its bytes are known
+		r := ex.alloc(st)
+		key := "E|" + typeKey(types.Typ[types.Byte]) + "|"
+		srt := heapKeySort("E", sInt, "")
+		h := ex.heapGet(st, key, srt)
+		row := "((as const (Array Int Int)) 0)"
+		for i := 0; i < len(lit); i++ {
+			row = sto(row, num(int64(i)), num(int64(lit[i])))
+		}
+		ex.heapSet(st, key, srt, sto(h, r, row))
+		n := num(int64(len(lit)))
+		return sliceVal(to, r, "0", n, n)
+	}
 	ex.declareFun("str.len", []string{sStr}, sInt)
 	ex.declareFun("str.bytes", []string{sStr}, arrSort(sInt, sInt))
 	r := ex.alloc(st)
